@@ -742,3 +742,34 @@ if BASES:
         register(Unit('bitsets.MemberBits.' + _w, BASES, 'MemberBits.' + _w, _unit(_keys(_w)),
                       assumptions=["bin(x).count('1') = the number of set bits (string level, ASSUMED); _reinverted = integers.reinverted (unit bitsets.integers.reinverted)"],
                       linkage=[(LINK + 'bases.MemberBits.' + _w, None)]))
+
+
+# ---------------------------------------------------------------------------------------------------------------------
+# lemma: the tie-break key orders the bitsets of a class lexicographically by member POSITION
+#   reinverted(a) < reinverted(b)  <->  at the lowest position where a and b differ, a has the member      (a, b below 2^r, a != b)
+
+def _lemma_key_order():
+    def prove(path):
+        a, b, ra, rb, r0, k = Ints('a b ra rb r0 k')
+        dom = lambda v: And(v >= 0, ForAll([k], Implies(bit(v, k), k < r0), patterns=[bit(v, k)]))
+        post = lambda res, v: And(res >= 0, ForAll([k], bit(res, k) == And(0 <= k, k < r0, Not(bit(v, r0 - 1 - k))), patterns=[bit(res, k)]))
+        path.assume(And(r0 >= 1, dom(a), dom(b), post(ra, a), post(rb, b), a != b))      # posts of unit bitsets.integers.reinverted
+        from pyvc.bits import tz, band, bor, bnot
+        d = bor(band(a, bnot(b)), band(b, bnot(a)))        # symmetric difference
+        lo = tz(d)                                         # lowest differing position
+        path.assume(bits.ext_instance(a, b, path.fresh_int('wext')))
+        path.oblige('difference-nonempty', 'lemma', d != 0)
+        path.oblige('lowest-difference', 'lemma', And(0 <= lo, lo < r0, bit(a, lo) != bit(b, lo),
+                                                      ForAll([k], Implies(And(0 <= k, k < lo), bit(a, k) == bit(b, k)), patterns=[bit(a, k), bit(b, k)])))
+        hi = r0 - 1 - lo                                   # = highest differing position of the keys
+        hb = Function('hint!%d' % next(path.eng.counter), B, B)
+        path.assume(And(hb(bit(ra, hi)), hb(bit(rb, hi))))
+        path.oblige('keys-differ-at-the-mirrored-position', 'lemma', And(bit(ra, hi) == Not(bit(a, lo)), bit(rb, hi) == Not(bit(b, lo))))
+        path.oblige('keys-agree-above', 'lemma', ForAll([k], Implies(k > hi, bit(ra, k) == bit(rb, k)), patterns=[bit(ra, k), bit(rb, k)]))
+        path.assume([bits.order_instance(ra, rb, hi), bits.order_instance(rb, ra, hi)])        # B14 both ways
+        path.oblige('key-order-is-lexicographic-by-position', 'lemma', (ra < rb) == bit(a, lo))
+    return bits.axioms(), prove
+
+
+register(Unit('lemma.bitsets.key_order', None, None, _lemma_key_order,
+              assumptions=['post of unit bitsets.integers.reinverted', 'B14: order of naturals by the highest differing bit (lemmas/Bits.lean: B14_lt_of_testBit)']))
